@@ -28,6 +28,8 @@ static rc::Gen<std::string> nameGen() {
       {6, rc::gen::resize(12, rc::gen::container<std::string>(rc::gen::map(irange('a', 'z'), [](int v) { return (char)v; })))},
       {3, rc::gen::resize(20, rc::gen::container<std::string>(ch))},
       {1, rc::gen::map(irange(200, 400), [](int n) { std::string s; for (int i = 0; i < n; i++) s.push_back((char)('A' + i % 50)); return s; })},
+      // lengths at the varint boundaries of the length prefix (one / two / three bytes) and multiples of 128
+      {1, rc::gen::map(rc::gen::element(127, 128, 129, 256, 384, 16383, 16384, 16385, 20000, 65535, 65536, 70000), [](int n) { std::string s; for (int i = 0; i < n; i++) s.push_back((char)('a' + i % 26)); return s; })},
   });
 }
 static rc::Gen<Bytes> binGen() {
@@ -35,11 +37,15 @@ static rc::Gen<Bytes> binGen() {
       {1, rc::gen::just(Bytes{})},
       {5, rc::gen::resize(16, rc::gen::container<Bytes>(rc::gen::arbitrary<uint8_t>()))},
       {1, rc::gen::map(irange(250, 400), [](int n) { Bytes b; for (int i = 0; i < n; i++) b.push_back((uint8_t)(i * 7)); return b; })},
+      {1, rc::gen::map(rc::gen::element(127, 128, 129, 256, 16383, 16384, 16385, 65535, 65536), [](int n) { Bytes b; for (int i = 0; i < n; i++) b.push_back((uint8_t)(i * 13)); return b; })},
   });
 }
 static rc::Gen<int64_t> i64g() {
   return rc::gen::weightedOneOf<int64_t>({{3, rc::gen::element<int64_t>(0, 1, -1, INT64_MIN, INT64_MAX, INT32_MAX, INT32_MIN, 63, 64, -64, -65, 8191, 8192)},
-                                          {3, rc::gen::map(bits64(), [](uint64_t v) { return (int64_t)v; })}, {3, rc::gen::map(irange(-200, 5000), [](int v) { return (int64_t)v; })}});
+                                          {3, rc::gen::map(bits64(), [](uint64_t v) { return (int64_t)v; })}, {3, rc::gen::map(irange(-200, 5000), [](int v) { return (int64_t)v; })},
+                                          // every magnitude: a random number of significant bits, both signs (varint length boundaries, the 2^31..2^32 window)
+                                          {4, rc::gen::map(rc::gen::tuple(bits64(), irange(0, 63), rc::gen::arbitrary<bool>()), [](const std::tuple<uint64_t, int, bool> &t) { uint64_t m = std::get<0>(t) >> std::get<1>(t); int64_t v = (int64_t)(m >> 1); return std::get<2>(t) ? -v : v; })},
+                                          {2, rc::gen::element<int64_t>((int64_t)1 << 31, ((int64_t)1 << 31) + 1, 3000000000LL, 4294967295LL, (int64_t)1 << 32, ((int64_t)1 << 32) + 1, -((int64_t)1 << 31) - 1, -((int64_t)1 << 32), (int64_t)1 << 62, -((int64_t)1 << 62))}});
 }
 static rc::Gen<int32_t> i32g() { return rc::gen::map(i64g(), [](int64_t v) { return (int32_t)v; }); }
 template <class T> static pq::Opt<T> optOf(bool present, T v) { return present ? pq::Opt<T>(v) : pq::Opt<T>(); }
